@@ -159,7 +159,7 @@ pub fn def() -> CheckDef {
         id: "C04",
         rule: "proptest: suffix-sharing packets (as C03) x {plain, compressed} x writer configurations: Vec (plain), growable cursor at offset 0 / 2 / k over empty and over 0xEE-pre-filled storage longer than the message, &mut [u8] and Cursor<&mut [u8]> of capacities 0..=len+2 (every capacity for 15% of the packets up to 600 bytes, 11 boundary capacities otherwise). Oracles: independent envelope walker (counts == entries supplied, EDNS counted once, entries end exactly at the end, every RDATA decodes to exactly RDLENGTH by the schema); byte equality with the vector-returning entry points, untouched bytes before/after; Err(FailedToWrite) iff capacity < len. Non-trivial = >= 2 records and at least one pointer; evaluations count writer configurations",
         assumptions: vec!["same exclusions as C02", "the final cursor position is not part of the statement and is not checked"],
-        sections: vec![Box::new(PropSection { name: "writers", rule: "framing and writer agreement", strategy, cases: (8_000, 150_000), check })],
+        sections: vec![Box::new(PropSection { name: "writers", rule: "framing and writer agreement", strategy, cases: (40_000, 400_000), check })],
     }
 }
 
